@@ -6,3 +6,7 @@ pub mod utf8;
 pub mod dsv;
 pub mod yamlpos;
 pub mod yaml;
+pub mod soup;
+pub mod bits;
+pub mod jq;
+pub mod jqrun;
